@@ -67,7 +67,15 @@ fn steered(t: &mut Tape, name: &str, nnodes: usize, ngraph: usize) -> Vec<CVal> 
                     CVal::Str(_) => s(t),
                     CVal::Bool(_) => b(t),
                     CVal::List(_) => list_of(t, nnodes, ngraph),
-                    CVal::Syn(_) => CVal::Syn(t.choose(nnodes)),
+                    // often the next node in pre-order: the first child, which for left-nested
+                    // constructs (`a.b.c`, `x + y + z`) has the same kind and start as its parent
+                    CVal::Syn(k) => {
+                        if t.chance(1, 2) {
+                            CVal::Syn((*k + 1).min(nnodes.saturating_sub(1)))
+                        } else {
+                            CVal::Syn(t.choose(nnodes))
+                        }
+                    }
                     other => other.clone(),
                 },
                 _ => gen_val(t, nnodes, ngraph, 0, true),
